@@ -251,7 +251,9 @@ func (k *TGSReq) setPAData(tgt Ticket, sessionKey types.EncryptionKey) error {
 		Checksum:  cb,
 	}
 	// Create AP_REQ
-	apReq, err := NewAPReq(tgt, sessionKey, auth)
+	// The authenticator of a PA-TGS-REQ always uses key usage 7 (RFC 4120 7.5.1), also when the ticket
+	// presented is not a TGT (renewal of a service ticket).
+	apReq, err := newAPReq(tgt, sessionKey, auth, keyusage.TGS_REQ_PA_TGS_REQ_AP_REQ_AUTHENTICATOR)
 	if err != nil {
 		return krberror.Errorf(err, krberror.KRBMsgError, "error generating new AP_REQ")
 	}
